@@ -577,8 +577,11 @@ def stats_of(tpath):
           # reorganisations that unconfirm transactions of the run
           "unwinds": 0, "unwinds_of_commitment": 0, "unwinds_forgetting_claims": 0, "unwinds_of_second_stage": 0,
           "unwinds_of_confirmed_claims": 0, "commitment_reconfirmed": 0, "commitment_reconfirmed_other_height": 0,
-          "claims_after_reconfirmation": 0, "max_unwind_depth": 0}
+          "claims_after_reconfirmation": 0, "max_unwind_depth": 0,
+          "runs_with_duplicate_hash_htlcs": 0, "late_preimages_for_duplicate_hashes": 0, "competing_commitment_confirmed": 0,
+          "previous_holder_commitment_runs": 0, "late_preimages_on_previous_holder_commitment": 0}
     cur = None
+    dup_hashes, prevh = set(), False
     shapes, comtx, comh, recommitted, agent_all, victim_claims = {}, None, None, False, set(), set()
     agent, conf = set(), set()
     asked, fell, rbn = {}, False, None
@@ -598,6 +601,8 @@ def stats_of(tpath):
                 asked, fell = {}, False
                 paid, expiry, delays = {}, None, e["delays"]
                 shapes, comtx, comh, recommitted, agent_all, victim_claims = {}, None, None, False, set(), set()
+                dup_hashes, prevh = set(), e["kind"] == "cp_previous" and len(e["live"]) == 2
+                st["previous_holder_commitment_runs"] += 1 if prevh else 0
                 st["types"][e["chan_type"]] = st["types"].get(e["chan_type"], 0) + 1
                 st["kinds"][e["kind"]] = st["kinds"].get(e["kind"], 0) + 1
                 for s in e["styles"]:
@@ -605,7 +610,12 @@ def stats_of(tpath):
             elif e["ev"] == "commit":
                 st["htlc_outputs"] += sum(1 for r in e["outs"] if r["k"] in ("offered", "received"))
                 st["revoked_runs" if e["revoked"] else "honest_runs"] += 1
+                if comtx is not None and comtx != e["tx"]:
+                    st["competing_commitment_confirmed"] += 1
                 comtx, comh = e["tx"], e["h"]
+                hs = [r["hash"] for r in e["outs"] if r["k"] in ("offered", "received")]
+                dup_hashes = {h for h in hs if hs.count(h) > 1}
+                st["runs_with_duplicate_hash_htlcs"] += 1 if dup_hashes else 0
                 if e["revoked"]:
                     expiry = (e["h"] + delays[e["owner"]], [[e["tx"], r["v"]] for r in e["outs"] if r["k"] == "to_local"])
             elif e["ev"] == "bcast" and not e["dup"]:
@@ -680,6 +690,9 @@ def stats_of(tpath):
                     st["_com_run"], st["_com_h"] = st["runs"], e["h"]
             elif e["ev"] == "idle":
                 st["blocks"] += e["h"] - e["from"] + 1
+            elif e["ev"] == "preimage":
+                st["late_preimages_for_duplicate_hashes"] += 1 if e["hash"] in dup_hashes else 0
+                st["late_preimages_on_previous_holder_commitment"] += 1 if prevh else 0
             elif e["ev"] == "spendable":
                 st["spendable"] += len(e["outs"])
             elif e["ev"] == "sweep":
@@ -784,6 +797,10 @@ def run_check(pid, tier, seed, assumptions):
         batches += [("reorg" if k == 0 else "reorg%d" % (k + 1), ["--random", 100 if thorough else 40, "--profile", "c07r"]) for k in range(3 if thorough else 1)]
         # the commitment of an honest close (and the claims on top of it) reorganised out and confirmed again
         batches += [("unwind" if k == 0 else "unwind%d" % (k + 1), ["--random", 300 if thorough else 40, "--profile", "c07u"]) for k in range(3 if thorough else 1)]
+        # several pending HTLCs with one payment hash; one commitment reorganised out and a competing one confirming instead;
+        # the previous, unrevoked holder commitment of a node under test confirming, the preimage arriving afterwards
+        for name, prof in (("duphash", "c07d"), ("compete", "c07x"), ("prevholder", "c07p")):
+            batches += [(name if k == 0 else "%s%d" % (name, k + 1), ["--random", 200 if thorough else 40, "--profile", prof]) for k in range(3 if thorough else 1)]
     nviol, total_events, total_runs, panics, known_hits = 0, 0, 0, 0, {}
     stats, good_traces, bad_runs = {}, [], {}
     for bi, (bname, args) in enumerate(batches):
@@ -874,6 +891,13 @@ def run_check(pid, tier, seed, assumptions):
             allst[k] = sum(stats[b][k] for b in stats)
         if allst["unwinds_of_commitment"] < 25 or allst["commitment_reconfirmed"] < 25 or allst["unwinds_forgetting_claims"] < 8:
             vacuous("vacuity: too few reorganisations of the commitment / re-confirmations: %s" % allst)
+        for k in ("runs_with_duplicate_hash_htlcs", "late_preimages_for_duplicate_hashes", "competing_commitment_confirmed",
+                  "previous_holder_commitment_runs", "late_preimages_on_previous_holder_commitment"):
+            allst[k] = sum(stats[b][k] for b in stats)
+        if allst["late_preimages_for_duplicate_hashes"] < 15 or allst["competing_commitment_confirmed"] < 20 \
+                or allst["late_preimages_on_previous_holder_commitment"] < 15:
+            vacuous("vacuity: too few late preimages for duplicate hashes / competing commitments / late preimages on a previous "
+                    "holder commitment: %s" % allst)
     if allst["spendable"] < allst["runs"] or allst["sweeps"] < allst["runs"] or allst["reloads"] == 0:
         vacuous("vacuity: too few SpendableOutputs / sweeps / reloads: %s" % allst)
 
